@@ -5,35 +5,54 @@ from framework import coq_N, coq_nat, coq_list, coq_opt
 ID = 'C08'
 COQ_IMPORTS = ['G_flags', 'C08_Model']
 GENERATORS = ['gen_flags']
+MODELLED_FUNCS = {'sugar/core/fts.py': [
+    'Defect._reverse', 'Strand._reverse', 'Location.__init__', 'Location.strand', 'Location.defect', 'Location._reverse',
+    'LocationTuple.__new__', 'LocationTuple.range', 'LocationTuple.__lt__', 'LocationTuple.__le__', 'LocationTuple.__gt__',
+    'LocationTuple.__ge__', 'LocationTuple.overlaps', 'LocationTuple._reverse',
+    'Feature.__init__', 'Feature.locs', 'Feature.loc', 'Feature.__len__', 'Feature.overlaps', 'Feature.rc',
+    'FeatureList.loc_range', 'FeatureList.slice', 'FeatureList.rc']}
 STRANDS = '+-.?'
-RULE = ('three case kinds: (h) a FeatureList built through the public constructors followed by a history of slice / rc / Feature.rc / '
-        'locs-setter operations, final features and loc_range compared; (rr) rc twice; (cmp) <,<=,>,>=,overlaps,range of two '
-        'LocationTuples. Exhaustive box: every pair of intervals x strand x window (bounds None or 0..N, including empty and inverted '
-        'windows), N=3 quick (half sampled) / N=5 thorough, defect bits and rel drawn per case; plus random histories with coordinates '
-        'up to 2^60 and invalid constructions. non-trivial = distinct case with at least one branch marker (cut side, dropped location/'
-        'feature, window edge = location edge, minus/unstranded, rel != 0, open window side, tie, rejected construction)')
+RULE = ('four case kinds: (h) a FeatureList built through the public constructors (features may share Location objects) followed by a '
+        'history of slice / rc / Feature.rc / locs-setter / locs-sharing operations and of queries (slice observed without replacing the '
+        'list, optionally mutating the RESULT; comparisons between features); the state after every step, every query, the final features '
+        'and loc_range are compared, every slice is repeated, operands and every LocationTuple handed out earlier must stay unchanged; '
+        '(rr) rc twice; (cmp) <,<=,>,>=,overlaps,range of two LocationTuples; (api) argument checking of constructors and comparisons. '
+        'Exhaustive box: every pair of intervals x strand x window (bounds None or 0..N, including empty and inverted windows), N=3 quick '
+        '(half sampled) / N=5 thorough, defect bits and rel drawn per case; every pair of intervals through the comparisons; all 256 '
+        'defect sets through rc; plus random histories with coordinates up to 2^62, defect values beyond 255, invalid constructions and a '
+        'state-independence stream (450 quick / 4000 thorough). non-trivial = distinct case with at least one branch marker (cut side, '
+        'dropped location/feature, window edge = location edge, minus/unstranded, rel != 0, open window side, tie, shared locations, '
+        'mutated result, rejected construction)')
 TRUSTED = ['CPython sorted() stability incl. reverse=True, enum.IntFlag/StrEnum semantics (len, ^, |, KEEP boundary), sys.maxsize = 2^63-1 '
            '(asserted by the driver), tuple/list/UserList plumbing',
            'modelled: Defect._reverse, Strand._reverse, Location.__init__/_reverse, LocationTuple.__new__/range/<,<=,>,>=/overlaps/_reverse, '
            'Feature.__init__/locs setter/rc, FeatureList.slice/rc/loc_range (fts.py:19-256, 281-299, 390-400, 705-780)',
            'metadata of locations and features is an opaque tag carried along (Meta copying is C18)']
 ASSUMPTIONS = ['coordinates |x| < 2^62 (the code substitutes +-sys.maxsize for an open window side)',
-               'defect bit sets 0..255; strands are the four Strand members',
-               'Locations are not mutated in place after construction (loc.strand = ... bypasses the constructor)',
-               'open finding F31 rc_tie_order: the rc().rc() identity is proved for unstranded features only when locations sharing a start are listed '
-               'with non-increasing stop (guard tie_ok); the remaining region is inside the tested domain and reported as KNOWN-FINDING']
-LEVEL_TEXT = ('Machine-checked Coq theorems over all integers: FeatureList.slice equals the declarative clip/filter specification (kept iff '
-              'x<b and y>a, result [max a x - r, min b y - r), MISS_LEFT/MISS_RIGHT set exactly when cut, other bits, strand, metadata and '
-              'order unchanged, feature kept iff a location is kept), is the identity for an unbounded window; mirroring maps [a,b) to '
-              '[L-b,L-a), swaps strand and the three left/right defect pairs (finite check over all 256 bit sets on the regenerated flag '
-              'values) and is an involution; every LocationTuple produced by constructor, setter, slice or rc over arbitrary operation '
-              'histories is non-empty, single-stranded and ordered 5\'->3\'; <,<=,>,>= are the lexicographic order on ranges with '
-              'trichotomy and overlaps is range intersection. The hand-written model is tied to sugar by differential testing on every run '
-              '(exhaustive small box + random large coordinates).')
+               'strands are the four Strand members; defect values are arbitrary non-negative integers (IntFlag keeps unknown bits)',
+               'Locations are not mutated in place by the caller after construction (loc.strand = ... bypasses the constructor); sharing of '
+               'Location objects between features is exercised by the history cases but not part of the (pure) Coq model',
+               'open finding F31 rc_tie_order: the rc().rc() identity holds exactly under the guard tie_ok (C08_mirror_involutive_iff); the '
+               'complementary region is inside the tested domain and reported as KNOWN-FINDING']
+LEVEL_TEXT = ('Machine-checked Coq theorems over all integers and all windows: FeatureList.slice equals the declarative clip/filter '
+              'specification (a location is kept iff it shares a position with [a,b), i.e. x<b and y>a for a non-empty window and never for '
+              'an empty or inverted one; result [max a x - r, min b y - r); MISS_LEFT/MISS_RIGHT set exactly when cut; other bits, strand, '
+              'metadata and order unchanged; feature kept iff a location is kept), is the identity for an unbounded window; mirroring maps '
+              '[a,b) to [L-b,L-a), swaps strand and the three left/right defect pairs (finite check over all 256 bit sets on the regenerated '
+              'flag values, extended to arbitrary bit sets) and is an involution exactly under the guard tie_ok (iff theorem; the complement '
+              'is open finding F31, where only the order of same-start locations of unstranded features changes); every LocationTuple '
+              'produced by constructor, setter, slice or rc over arbitrary operation histories is non-empty, single-stranded and ordered '
+              '5\'->3\'; <,<=,>,>= are the lexicographic order on ranges with trichotomy, overlaps is range intersection, range and '
+              'loc_range are (least start, greatest stop). The hand-written model is tied to sugar by differential testing on every run '
+              '(exhaustive small box, random large coordinates, state-independence histories).')
 LEVEL_NOTE = ('Trusted: Coq kernel/vm_compute, tools/gen_data.py (flag values), the correspondence harness, CPython sorted/enum. Modelled rather '
-              'than verified: the functions of sugar/core/fts.py listed in trusted_base. Empty and inverted windows are inside the domain (F26 repaired: '
-              'C08_slice_empty_window). One open finding (F31): rc().rc() permutes same-start locations of unstranded features; the involution is '
-              'proved under the guard tie_ok (C08_mirror_involutive_partial) and refuted without it (C08_mirror_involutive_refuted). All theorems closed under the global context.')
+              'than verified: the functions of sugar/core/fts.py listed in MODELLED_FUNCS (every statement of them is executed in the quick '
+              'tier; no unreachable lines). Proved for all inputs: every clause of the property except the involution outside tie_ok (refuted: '
+              'C08_mirror_involutive_refuted, characterised: C08_mirror_involutive_iff, C08_tie_region_iff). Tested only (not expressible in '
+              'the pure model): independence from shared Location objects / earlier calls (history stream), the TypeError paths of '
+              'constructors and comparisons, Feature.overlaps/__len__/loc delegation, the start=/stop=/strand= keyword form and the '
+              'tuple-conversion form of the constructors, CPython int/enum behaviour. Identity for an unbounded window is proved for '
+              '|x| < 2^62. All theorems closed under the global context.')
 TECHNIQUE = 'Coq proof (lia, list induction, finite enumeration of 256 defect sets / 256 bytes) + differential correspondence'
 
 B62 = 2 ** 62
@@ -56,6 +75,12 @@ def _pop(o):
         return {'_op': 'rc', 'L': o[1]}
     if o[0] == 'ftrc':
         return {'_op': 'ftrc', 'i': o[1], 'L': o[2]}
+    if o[0] == 'sharelocs':
+        return {'_op': 'sharelocs', 'i': o[1], 'j': o[2]}
+    if o[0] == 'qslice':
+        return {'_op': 'qslice', 'a': o[1], 'b': o[2], 'r': o[3], 'L': o[4]}
+    if o[0] == 'qcmp':
+        return {'_op': 'qcmp', 'i': o[1], 'j': o[2]}
     return {'_op': 'setlocs', 'i': o[1], 'locs': [_pl(r) for r in o[2]]}
 
 
@@ -63,11 +88,13 @@ def _pack(c):
     """internal list form -> stored dict form"""
     d = {'_k': c['_k']}
     if 'fts' in c:
-        d['fts'] = [{'locs': [_pl(r) for r in f['locs']], 'm': f['m'], 'kw': f['kw']} for f in c['fts']]
+        d['fts'] = [{'locs': [_pl(r) for r in f['locs']], 'm': f['m'], 'kw': f['kw'], 'share': f.get('share')} for f in c['fts']]
     if 'ops' in c:
         d['ops'] = [_pop(o) for o in c['ops']]
     if 'L' in c:
         d['L'] = c['L']
+    if 'v' in c:
+        d['v'] = c['v']
     for k in ('t', 'u'):
         if k in c:
             d[k] = [_pl(r) for r in c[k]]
@@ -82,18 +109,35 @@ def _uop(o):
         return ['rc', o['L']]
     if k == 'ftrc':
         return ['ftrc', abs(o['i']), o['L']]
+    if k == 'sharelocs':
+        return ['sharelocs', abs(o['i']), abs(o['j'])]
+    if k == 'qslice':
+        return ['qslice', o['a'], o['b'], o['r'], o['L']]
+    if k == 'qcmp':
+        return ['qcmp', abs(o['i']), abs(o['j'])]
     return ['setlocs', abs(o['i']), [list(_t(r)) for r in o['locs']]]
 
 
 def _norm(c):
-    """stored dict form -> internal list form used by driver and oracle"""
+    """stored dict form -> internal list form used by driver, term printer and oracle.
+    A feature with 'share': j (j an earlier index) is built from fts[j].locs -- the same Location objects -- so its
+    locations are those of feature j whatever its own 'locs' entry says."""
     d = {'_k': c['_k']}
     if 'fts' in c:
-        d['fts'] = [{'locs': [list(_t(r)) for r in f['locs']], 'm': f['m'], 'kw': f.get('kw', False)} for f in c['fts']]
+        fs = []
+        for i, f in enumerate(c['fts']):
+            sh = f.get('share')
+            if isinstance(sh, bool) or not isinstance(sh, int) or not (0 <= sh < i):
+                sh = None
+            locs = [list(r) for r in fs[sh]['locs']] if sh is not None else [list(_t(r)) for r in f['locs']]
+            fs.append({'locs': locs, 'm': f['m'], 'kw': f.get('kw', False), 'share': sh})
+        d['fts'] = fs
     if 'ops' in c:
         d['ops'] = [_uop(o) for o in c['ops']]
     if 'L' in c:
         d['L'] = c['L']
+    if 'v' in c:
+        d['v'] = abs(c['v'])
     for k in ('t', 'u'):
         if k in c:
             d[k] = [list(_t(r)) for r in c[k]]
@@ -106,7 +150,7 @@ def coq_z(n):
 
 
 def _raw(r):
-    a, b, s, d, m = _t(r)
+    a, b, s, d, m = r
     return '(%s, %s, x%02x, %s, %s)' % (coq_z(a), coq_z(b), ord(s), coq_N(max(d, 0)), coq_z(m))
 
 
@@ -119,24 +163,33 @@ def _fts(fs):
 
 
 def _op(o):
-    k = o['_op']
+    k = o[0]
     if k == 'slice':
-        return '(OSlice %s %s %s)' % (coq_opt(o['a'], coq_z), coq_opt(o['b'], coq_z), coq_z(o['r']))
+        return '(OSlice %s %s %s)' % (coq_opt(o[1], coq_z), coq_opt(o[2], coq_z), coq_z(o[3]))
     if k == 'rc':
-        return '(ORc %s)' % coq_z(o['L'])
+        return '(ORc %s)' % coq_z(o[1])
     if k == 'ftrc':
-        return '(OFtRc %s %s)' % (coq_nat(abs(o['i'])), coq_z(o['L']))
+        return '(OFtRc %s %s)' % (coq_nat(o[1]), coq_z(o[2]))
     if k == 'setlocs':
-        return '(OSetLocs %s %s)' % (coq_nat(abs(o['i'])), _raws(o['locs']))
+        return '(OSetLocs %s %s)' % (coq_nat(o[1]), _raws(o[2]))
+    if k == 'sharelocs':
+        return '(OShareLocs %s %s)' % (coq_nat(o[1]), coq_nat(o[2]))
+    if k == 'qslice':
+        return '(OQSlice %s %s %s %s)' % (coq_opt(o[1], coq_z), coq_opt(o[2], coq_z), coq_z(o[3]), coq_opt(o[4], coq_z))
+    if k == 'qcmp':
+        return '(OQCmp %s %s)' % (coq_nat(o[1]), coq_nat(o[2]))
     raise ValueError(o)
 
 
 def model_term(case):
+    case = _norm(case)
     k = case['_k']
     if k == 'h':
         return 'out (run_C08 %s %s)%%Z' % (_fts(case['fts']), coq_list([_op(o) for o in case['ops']]))
     if k == 'rr':
         return 'out (run_C08_rcrc %s %s)%%Z' % (_fts(case['fts']), coq_z(case['L']))
+    if k == 'api':
+        return 'out (run_C08_api %s %s)%%Z' % (coq_N(case['v']), _raws(case['t']))
     return 'out (run_C08_cmp %s %s)%%Z' % (_raws(case['t']), _raws(case['u']))
 
 
@@ -177,6 +230,67 @@ def _vft(ft):
     return [[_vloc(l) for l in ft.locs], ft.meta.get('tag')]
 
 
+class RetainedLocationTupleChanged(Exception):
+    """a LocationTuple obtained earlier (ft.locs) no longer shows the locations it had when it was obtained"""
+
+
+class OperandChanged(Exception):
+    """a not-in-place operation (slice), or an in-place operation on its RESULT, changed the operand"""
+
+
+class RepeatedCallDiffers(Exception):
+    """the same call on the same unchanged object gave a different answer the second time"""
+
+
+def _need(cond, exc, msg):
+    if not cond:
+        raise exc(msg)
+
+
+def _vcmp(t, u):
+    assert t.overlaps(u) == u.overlaps(t)
+    return [t < u, t <= u, t > u, t >= u, t.overlaps(u), t.range[0], t.range[1], u.range[0], u.range[1]]
+
+
+def _build(case):
+    from sugar.core.fts import Feature, FeatureList
+    objs = []
+    for f in case['fts']:
+        if f.get('share') is not None:
+            # the usual way to derive one feature from another: the LocationTuple (and its Location objects) is shared
+            objs.append(Feature('gene', locs=objs[f['share']].locs, meta={'tag': f['m']}))
+        else:
+            objs.append(_mkft(f))
+    return FeatureList(objs)
+
+
+def _exc_name(f):
+    try:
+        f()
+    except Exception as e:
+        return type(e).__name__
+    return 'no exception'
+
+
+def _impl_api(v, raws):
+    """argument checking of the constructors and of the comparisons"""
+    from sugar.core.fts import Feature, LocationTuple
+    if v == 0:
+        return [_vloc(l) for l in LocationTuple([_mkloc(r) for r in raws], start=1, stop=2)]
+    if v == 1:
+        return [_vloc(l) for l in LocationTuple()]
+    if v == 2:
+        return [_vloc(l) for l in LocationTuple([(r[0], r[1], r[2], r[3]) for r in raws])]
+    if v == 3:
+        t = LocationTuple([_mkloc(r) for r in raws])
+        ft = Feature('gene', locs=t)
+        return [_exc_name(lambda: t < 5), _exc_name(lambda: t <= 'x'), _exc_name(lambda: t > None), _exc_name(lambda: t >= (1, 2)),
+                _exc_name(lambda: t.overlaps((0, 1))), _exc_name(lambda: ft.overlaps(5)), ft.overlaps(Feature(locs=t)), ft.overlaps(t)]
+    ft = Feature(locs=[_mkloc(r) for r in raws])
+    assert ft.type is None and len(ft.meta) == 0
+    return [_vloc(l) for l in ft.locs]
+
+
 def impl(case):
     import sys
     from sugar.core.fts import FeatureList, LocationTuple
@@ -186,9 +300,12 @@ def impl(case):
     if k == 'cmp':
         t = LocationTuple([_mkloc(r) for r in case['t']])
         u = LocationTuple([_mkloc(r) for r in case['u']])
-        assert t.overlaps(u) == u.overlaps(t)
-        return [t < u, t <= u, t > u, t >= u, t.overlaps(u), t.range[0], t.range[1], u.range[0], u.range[1]]
-    fts = FeatureList([_mkft(f) for f in case['fts']])
+        v = _vcmp(t, u)
+        _need(_vcmp(t, u) == v, RepeatedCallDiffers, 'comparison')
+        return v
+    if k == 'api':
+        return _impl_api(case['v'], case['t'])
+    fts = _build(case)
     if k == 'rr':
         st = [_vft(f) for f in fts]
         r = fts.rc(seqlen=case['L'])
@@ -196,10 +313,27 @@ def impl(case):
         st1 = [_vft(f) for f in fts]
         fts.rc(seqlen=case['L'])
         return [st, st1, [_vft(f) for f in fts]]
+    # history: every LocationTuple ever handed out is a value and must keep its rendering; the state is recorded after
+    # each operation; queries are repeated and must not depend on what happened to earlier results
+    held, log = [], []
+
+    def state():
+        return [_vft(f) for f in fts]
+
+    def hold():
+        for ft in fts:
+            held.append((ft.locs, [_vloc(l) for l in ft.locs]))
+
+    def do_slice(o):
+        return fts.slice(o[1], o[2], rel=o[3]) if (o[3] or o[1] is None) else fts.slice(o[1], o[2])
+    hold()
     for o in case['ops']:
         if o[0] == 'slice':
-            r = fts.slice(o[1], o[2], rel=o[3]) if (o[3] or o[1] is None) else fts.slice(o[1], o[2])
+            before = state()
+            r = do_slice(o)
             assert isinstance(r, FeatureList) and r is not fts
+            _need(state() == before, OperandChanged, 'slice changed its operand')
+            _need([_vft(f) for f in do_slice(o)] == [_vft(f) for f in r], RepeatedCallDiffers, 'slice')
             fts = r
         elif o[0] == 'rc':
             r = fts.rc(seqlen=o[1]) if o[1] else fts.rc()
@@ -212,8 +346,36 @@ def impl(case):
             locs = [_mkloc(r) for r in o[2]]
             if o[1] < len(fts):
                 fts[o[1]].locs = locs
+        elif o[0] == 'sharelocs':
+            if o[1] < len(fts) and o[2] < len(fts):
+                fts[o[1]].locs = fts[o[2]].locs
+        elif o[0] == 'qslice':
+            before = state()
+            q = do_slice(o)
+            v = [_vft(f) for f in q]
+            if o[4] is not None:
+                q.rc(seqlen=o[4])                  # mutate the RESULT in place
+                v = [v, [_vft(f) for f in q]]
+            _need(state() == before, OperandChanged, 'operand changed through the result of slice')
+            _need([_vft(f) for f in do_slice(o)] == (v[0] if o[4] is not None else v), RepeatedCallDiffers, 'slice')
+            log.append(v)
+            continue
+        elif o[0] == 'qcmp':
+            if o[1] < len(fts) and o[2] < len(fts):
+                v = _vcmp(fts[o[1]].locs, fts[o[2]].locs)
+                _need(_vcmp(fts[o[1]].locs, fts[o[2]].locs) == v, RepeatedCallDiffers, 'comparison')
+                assert fts[o[1]].overlaps(fts[o[2]]) == v[4] and fts[o[1]].overlaps(fts[o[2]].locs) == v[4]
+                log.append(v)
+            else:
+                log.append(None)
+            continue
+        log.append(state())
+        hold()
+    for t, r in held:
+        _need([_vloc(l) for l in t] == r, RetainedLocationTupleChanged, '%r was %r' % (t, r))
     lr = fts.loc_range
-    return [[_vft(f) for f in fts], lr[0], lr[1]]
+    _need(fts.loc_range == lr, RepeatedCallDiffers, 'loc_range')
+    return [log, state(), lr[0], lr[1]]
 
 
 # ----------------------------------------------------------------------------- property oracle (first principles)
@@ -269,47 +431,79 @@ def _same_state(got, exp, exact=False):
     return None
 
 
+def _o_slice(st, a, b, rel):
+    a = -INF if a is None else a
+    b = INF if b is None else b
+    nst = []
+    for locs, fm in st:
+        kept = []
+        for x, y, s, d, m in locs:
+            lo, hi = max(a, x), min(b, y)
+            if lo < hi:                      # the part of [x,y) inside [a,b) is [lo,hi)
+                nd = d | (_flag('MISS_LEFT') if x < lo else 0) | (_flag('MISS_RIGHT') if hi < y else 0)
+                kept.append([lo - rel, hi - rel, s, nd, m])
+        if kept:
+            nst.append([kept, fm])
+    return nst
+
+
+def _o_mirror(locs, L):
+    return [[L - y, L - x, {'+': '-', '-': '+'}.get(s, s), _mirror_defect(d), m] for x, y, s, d, m in locs]
+
+
+def _o_cmp(t, u):
+    p = (min(r[0] for r in t), max(r[1] for r in t))
+    q = (min(r[0] for r in u), max(r[1] for r in u))
+    return [p < q, p <= q, p > q, p >= q, max(p[0], q[0]) < min(p[1], q[1]), p[0], p[1], q[0], q[1]]
+
+
 def _spec_hist(case, got):
     st = []
     for f in case['fts']:
         if not _valid_locs(f['locs']):
             return None if got == {'e': 'ValueError'} else 'invalid construction accepted: %r' % (got,)
         st.append([[list(r) for r in f['locs']], f['m']])
+    log = []                                  # ('state', st) | ('states', [st, st]) | ('val', v)
     for o in case['ops']:
         if o[0] == 'slice':
-            a = -INF if o[1] is None else o[1]
-            b = INF if o[2] is None else o[2]
-            rel = o[3]
-            nst = []
-            for locs, fm in st:
-                kept = []
-                for x, y, s, d, m in locs:
-                    lo, hi = max(a, x), min(b, y)
-                    if lo < hi:                      # the part of [x,y) inside [a,b) is [lo,hi)
-                        nd = d | (_flag('MISS_LEFT') if x < lo else 0) | (_flag('MISS_RIGHT') if hi < y else 0)
-                        kept.append([lo - rel, hi - rel, s, nd, m])
-                if kept:
-                    nst.append([kept, fm])
-            st = nst
+            st = _o_slice(st, o[1], o[2], o[3])
         elif o[0] in ('rc', 'ftrc'):
-            L = o[-1]
-            for i, (locs, fm) in enumerate(st):
-                if o[0] == 'ftrc' and i != o[1]:
-                    continue
-                st[i] = [[[L - y, L - x, {'+': '-', '-': '+'}.get(s, s), _mirror_defect(d), m] for x, y, s, d, m in locs], fm]
+            st = [[_o_mirror(locs, o[-1]), fm] if (o[0] == 'rc' or i == o[1]) else [locs, fm] for i, (locs, fm) in enumerate(st)]
         elif o[0] == 'setlocs':
             if not _valid_each(o[2]) or (o[1] < len(st) and not _valid_locs(o[2])):
                 return None if got == {'e': 'ValueError'} else 'invalid locs accepted: %r' % (got,)
             if o[1] < len(st):
-                st[o[1]] = [[list(r) for r in o[2]], st[o[1]][1]]
+                st = [[[list(r) for r in o[2]], fm] if i == o[1] else [locs, fm] for i, (locs, fm) in enumerate(st)]
+        elif o[0] == 'sharelocs':
+            if o[1] < len(st) and o[2] < len(st):
+                st = [[[list(r) for r in st[o[2]][0]], fm] if i == o[1] else [locs, fm] for i, (locs, fm) in enumerate(st)]
+        elif o[0] == 'qslice':
+            q = _o_slice(st, o[1], o[2], o[3])
+            log.append(('state', q) if o[4] is None else ('states', [q, [[_o_mirror(locs, o[4]), fm] for locs, fm in q]]))
+            continue
+        elif o[0] == 'qcmp':
+            log.append(('val', _o_cmp(st[o[1]][0], st[o[2]][0]) if o[1] < len(st) and o[2] < len(st) else None))
+            continue
+        log.append(('state', st))
     if isinstance(got, dict):
         return 'raised %s' % got['e']
-    w = _same_state(got[0], st)
+    if len(got[0]) != len(log):
+        return 'log length %d, expected %d' % (len(got[0]), len(log))
+    for n, (g, (kind, e)) in enumerate(zip(got[0], log)):
+        if kind == 'val':
+            w = None if g == e else 'got %r expected %r' % (g, e)
+        elif kind == 'state':
+            w = _same_state(g, e)
+        else:
+            w = _same_state(g[0], e[0]) or _same_state(g[1], e[1])
+        if w:
+            return 'step %d (%s): %s' % (n, case['ops'][n][0], w)
+    w = _same_state(got[1], st)
     if w:
         return w
     alll = [l for locs, _ in st for l in locs]
-    if alll and (got[1], got[2]) != (min(l[0] for l in alll), max(l[1] for l in alll)):
-        return 'loc_range %r' % (got[1:],)
+    if alll and (got[2], got[3]) != (min(l[0] for l in alll), max(l[1] for l in alll)):
+        return 'loc_range %r' % (got[2:],)
     return None
 
 
@@ -335,6 +529,22 @@ def spec(case, got):
         if got[2] != got[0]:
             return 'rc(rc(x)) = %r != x = %r' % (got[2], got[0])
         return None
+    if k == 'api':
+        v, t = case['v'], case['t']
+        if v in (0, 1):
+            return None if got == {'e': 'ValueError'} else 'expected ValueError, got %r' % (got,)
+        if v == 2 and t and not _valid_each(t):
+            return None if got == {'e': 'TypeError'} else 'expected TypeError, got %r' % (got,)
+        if not _valid_locs(t):
+            return None if got == {'e': 'ValueError'} else 'invalid construction accepted'
+        if isinstance(got, dict):
+            return 'raised %s' % got['e']
+        if v == 3:
+            return None if got == ['TypeError'] * 6 + [True, True] else 'got %r' % (got,)
+        exp = [r[:4] + [0] for r in t] if v == 2 else t
+        if not _ordered(got) or sorted(got) != sorted(exp):
+            return 'locations %r expected %r' % (got, exp)
+        return None
     # cmp
     if not (_valid_locs(case['t']) and _valid_locs(case['u'])):
         return None if got == {'e': 'ValueError'} else 'invalid construction accepted'
@@ -355,6 +565,8 @@ def _marks(case):
     case = _norm(case)
     k = case['_k']
     ms = set()
+    if k == 'api':
+        return {'api%d' % case['v']}
     if k == 'cmp':
         ms.add('cmp')
         if len(case['t']) > 1 or len(case['u']) > 1:
@@ -374,12 +586,16 @@ def _marks(case):
                 ms.add('defect')
         if not _valid_locs(f['locs']):
             ms.add('invalid')
+        if f.get('share') is not None:
+            ms.add('share')
     if k == 'rr':
         ms.add('rr')
         return ms
     for o in case['ops']:
         ms.add(o[0])
-        if o[0] == 'slice':
+        if o[0] == 'qslice' and o[4] is not None:
+            ms.add('mutate_result')
+        if o[0] in ('slice', 'qslice'):
             if o[1] is None or o[2] is None:
                 ms.add('open')
             if o[3]:
@@ -405,7 +621,7 @@ def nontrivial(case, got):
 def histkey(case, got):
     case = _norm(case)
     ks = ['kind=' + case['_k']]
-    if case['_k'] == 'cmp':
+    if case['_k'] in ('cmp', 'api'):
         return ks + ['result=' + ('error' if isinstance(got, dict) else 'ok')]
     nl = sum(len(f['locs']) for f in case['fts'])
     ks.append('nlocs=' + ('0' if nl == 0 else '1' if nl == 1 else '2' if nl == 2 else '3+'))
@@ -454,6 +670,8 @@ def _intervals(n):
 
 def _rand_defect(rng):
     r = rng.random()
+    if r < 0.04:
+        return rng.choice([256, 300, 511, 2 ** 12 + 5, 2 ** 20 + 21, 2 ** 40 + 42])   # bits unknown to Defect are kept (IntFlag KEEP)
     if r < 0.35:
         return 0
     if r < 0.7:
@@ -517,6 +735,48 @@ def _rand_op(rng, coord, nfts):
     return ['setlocs', rng.randrange(nfts + 1), _rand_locs(rng, coord, valid=rng.random() < 0.85)]
 
 
+def _indep_case(rng):
+    """history touching the same objects several times: (a) same query twice [done by the driver for every slice],
+    (b) different windows on the same list in both orders, (c) query / in-place edit / query, (d) mutation of a result,
+    (e) features sharing Location objects mirrored through one holder, (f) same ranges / lengths through cmp"""
+    coord = (lambda: rng.randint(0, 12)) if rng.random() < 0.85 else _rand_coord_gen(rng)
+    n = rng.choice([1, 2, 2, 3])
+    fts = []
+    for i in range(n):
+        share = rng.randrange(i) if i and rng.random() < 0.6 else None
+        locs = [list(r) for r in fts[share]['locs']] if share is not None else _rand_locs(rng, coord, n=rng.choice([1, 2, 2, 3]))
+        fts.append({'locs': locs, 'm': 20 + i, 'kw': False, 'share': share})
+    L = rng.choice([0, 13, 20, coord()])
+
+    def win():
+        a = None if rng.random() < 0.15 else coord()
+        b = None if rng.random() < 0.15 else (coord() if a is None else a + rng.choice([0, 1, 2, 4, 7]))
+        return a, b, rng.choice([0, 0, 1, a if a is not None else 2])
+    w1, w2 = win(), win()
+    ops = []
+    for _ in range(rng.choice([3, 4, 5, 6])):
+        r = rng.random()
+        if r < 0.2:
+            ops += [['qslice', w1[0], w1[1], w1[2], None], ['qslice', w2[0], w2[1], w2[2], None], ['qslice', w1[0], w1[1], w1[2], None]]
+        elif r < 0.35:
+            w = win()
+            ops.append(['qslice', w[0], w[1], w[2], rng.choice([L, 0, 7])])
+        elif r < 0.5:
+            ops.append(['rc', L])
+        elif r < 0.65:
+            ops.append(['ftrc', rng.randrange(n + 1), L])
+        elif r < 0.75:
+            ops.append(['sharelocs', rng.randrange(n + 1), rng.randrange(n + 1)])
+        elif r < 0.85:
+            ops.append(['qcmp', rng.randrange(n + 1), rng.randrange(n + 1)])
+        elif r < 0.93:
+            ops.append(['setlocs', rng.randrange(n + 1), _rand_locs(rng, coord)])
+        else:
+            w = win()
+            ops.append(['slice', w[0], w[1], w[2]])
+    return {'_k': 'h', 'fts': fts, 'ops': ops}
+
+
 def gen_cases(rng, tier):
     cases = []
     thorough = tier == 'thorough'
@@ -559,6 +819,17 @@ def gen_cases(rng, tier):
                 j = rng.choice(civs)
                 u.insert(rng.randrange(2), [j[0], j[1], s2, 0, 0])
             cases.append({'_k': 'cmp', 't': t, 'u': u})
+    # argument checking of constructors and comparisons
+    for v in range(5):
+        for _ in range(60 if thorough else 12):
+            coord = _rand_coord_gen(rng)
+            locs = _rand_locs(rng, coord, valid=rng.random() < 0.7)
+            if v == 2:
+                locs = [r[:4] + [0] for r in locs]
+            cases.append({'_k': 'api', 'v': v, 't': locs})
+    # state-independence stream: shared Location objects, repeated / reordered queries, mutation of results and operands
+    for _ in range(4000 if thorough else 450):
+        cases.append(_indep_case(rng))
     nrand = 16000 if thorough else 900
     for _ in range(nrand):
         coord = _rand_coord_gen(rng)
